@@ -370,3 +370,7 @@ func verifLemmaUint32RoundTrip(schema *schema_j5pb.Field, pv protoreflect.Value)
 //@   free requires forall i int :: 0 <= i && i < len(p.protoPath) ==> p.protoPath[i] != nil
 //@   ensures repeated: old(p.hasValue) ==> result1 != nil && result0 == nil
 //@   ensures marked: result1 == nil ==> p.hasValue && p.value == result0
+
+// a timestamp is read with the RFC 3339 layout (which accepts the fractional seconds the encoder writes)
+//@ func timestampFromString
+//@   assert at Parse#0 layout: layoutParsesRFC3339(arg0)
